@@ -187,7 +187,7 @@ def handle (ts : List String) : String :=
     " ".intercalate ((offsetsLine TS CS name (decodeStr line).toList).map fun o =>
       match o with | some k => toString k | none => "-")
   | "loadfile" :: lines =>
-    (match loadFile TS CS (lines.map fun l => (decodeStr l).toList) with
+    (match loadFileV TS CS (lines.map fun l => (decodeStr l).toList) with
      | some ((a, b, c), parsed) =>
        "V(" ++ toString a ++ "," ++ toString b ++ "," ++ toString c ++ ")" ++
          String.join (parsed.map fun (k, vals) => " | " ++ k ++ " " ++ fmtVals vals)
